@@ -43,11 +43,120 @@ def oracle(case, outcome, ctx):
             ctx.sample({"t": case["t"], "input": case["input"], "pretext": case["pretext"], "output": outcome["out"], "junction_classes": cnt})
 
 
+MERGED = []
+
+
+def split_merged_blocks(blocks, merged):
+    """blocks: scaffolds as read back from the file (runs of lines with one name); merged: what the tool
+    concatenated, per source assembly [(scaffold name, number of rows)].  Where one block is really several
+    same-named scaffolds that came from DIFFERENT source assemblies, split it again and report it."""
+    flat = [(ai, n, k) for ai, a in enumerate(merged) for n, k in a]
+    out, ran, i = [], [], 0
+    for name, rows in blocks:
+        parts, used = [], 0
+        while i < len(flat) and flat[i][1] == name and used + flat[i][2] <= len(rows):
+            parts.append(flat[i])
+            used += flat[i][2]
+            i += 1
+        if len(parts) > 1 and used == len(rows) and len({p[0] for p in parts}) == len(parts):
+            ran.append(f"{name} x{len(parts)}")
+            at = 0
+            for _, _, k in parts:
+                out.append([name, rows[at : at + k]])
+                at += k
+        else:
+            out.append([name, rows])
+    return out, ran
+
+
+def check_cli(cr, ctx, fmt, multihap=False):
+    """The files the CLI writes, read back block by block (a scaffold in AGP / TPF text is a run of lines
+    with one object name), under the same oracle."""
+    from vf import cli_runs
+    from vf.ref import agp_ref, tpf_ref
+
+    from tola.assembly.scripts import pretext_to_asm as p2a
+    from vf.mon import contracts
+
+    def on_merge(args, kwargs):
+        MERGED.append([[(s.name, len(s.rows)) for s in a.scaffolds] for a in (args[0] if args else kwargs["asm_list"])])
+
+    contracts.attach(p2a, "merge_assemblies", on_call=on_merge, label="C07.merge_assemblies")
+    ctx.case()
+    MERGED.clear()
+    res = cli_runs.run_pretext_to_asm(cr, out_name=f"out.{fmt}")
+    if res["exit_code"] != 0:
+        ctx.count("cli:error-exit")
+        return
+    out = []
+    case = cli_runs.case_of(cr, {"out_fmt": fmt, "multihap": multihap})
+    for name, data in cli_runs.output_files(cr).items():
+        if name.endswith("." + fmt):
+            blocks = (agp_ref if fmt == "agp" else tpf_ref).parse(data.decode())[0]["scaffolds"]
+            if "all_haplotigs" in name and len(MERGED) == 1:
+                blocks, ran_together = split_merged_blocks(blocks, MERGED[0])
+                if ran_together:
+                    # D11: homologous chromosomes of two un-curated haplotypes get the same name and are written
+                    # one after the other into the one file, where they read as a single scaffold
+                    ctx.violation(
+                        "all_haplotigs-same-named-scaffolds-of-different-haplotypes-run-together" + ("" if multihap else ":unexpected-class"),
+                        f"{name}: {ran_together} - a reader of the file sees one scaffold per name\nmerged assemblies: {MERGED[0]}", case)
+            out.append([name, blocks])
+    errs, cnt = gaps_ref.check_gaps(cr["input"], out, workloads.JOIN_GAP, True)
+    for k, v in cnt.items():
+        ctx.count(f"cli-junctions:{k}", v)
+    ctx.nontrivial(case["files"])
+    for lab in cr["labels"]:
+        if lab.startswith("tag:") and lab.endswith("-haplotypes"):
+            ctx.count(f"cli:{lab}")
+    if any("all_haplotigs" in n for n, _ in out):
+        ctx.count("cli:all_haplotigs-file-written")
+    for sig, msg in errs[:3]:
+        ctx.violation(f"{sig}:cli-files", f"{msg}\nfiles={[(n, [s[0] for s in scs]) for n, scs in out]}", case)
+    if not errs:
+        ctx.count("cli:gaps-ok")
+
+
+def run_cli(shard, ctx):
+    import os
+    from pathlib import Path
+
+    from vf import cli_runs
+    from vf.core import rng_for
+
+    base = Path(os.environ.get("VERIF_SHARD_SCRATCH", "."))
+    for i in range(shard["n"]):
+        rng = rng_for(shard["seed"], "c07cli", shard["index"], i)
+        fmt = rng.choice(["agp", "tpf"])
+        k = 0 if shard["kind"] == "cli-multihap" else 1 + i % 3
+        if k == 0:
+            cr = cli_runs.text_case(rng, base / f"c{i}", fmt=fmt, nhap=rng.choice([3, 3, 4]))
+        elif k == 1:
+            cr = cli_runs.text_case(rng, base / f"c{i}", fmt=fmt, tagged=True, two_hap=True, unprefixed=True, primary=True)
+        elif k == 2:
+            cr = cli_runs.text_case(rng, base / f"c{i}", fmt=fmt, tagged=True, two_hap=True)
+        else:
+            cr = cli_runs.text_case(rng, base / f"c{i}", fmt=fmt, tagged=True)
+        try:
+            check_cli(cr, ctx, fmt, multihap=(k == 0))
+        finally:
+            cli_runs.cleanup(cr)
+
+
 def run(shard, ctx):
+    if shard["kind"] in ("cli", "cli-multihap"):
+        return run_cli(shard, ctx)
     workloads.run_remap_batch(shard, ctx, kinds=tuple(shard["kinds"]), oracle=oracle, opts={"terminal_gaps": True})
 
 
 def replay(case, ctx):
+    if case.get("kind") == "cli":
+        import os
+        from pathlib import Path
+
+        from vf import cli_runs
+
+        return check_cli(cli_runs.restore_case(case, Path(os.environ.get("VERIF_SHARD_SCRATCH", ".")) / "replay"), ctx, case.get("out_fmt", "agp"), multihap=case.get("multihap", False))
     oracle(case, workloads.run_case(case), ctx)
 
 
@@ -60,6 +169,8 @@ def plan(tier, seed):
         if k % 4 == 0:
             s["opts"] = {"paint_prob": 0.2}  # many unpainted scaffolds: trailing contigs in the final partial texel
         sh.append(s)
+    sh += [{"kind": "cli", "n": 60 if tier == "quick" else 800} for _ in range(3)]
+    sh += [{"kind": "cli-multihap", "n": 60 if tier == "quick" else 800} for _ in range(2)]
     return sh
 
 
@@ -76,6 +187,9 @@ def gates(c, tier):
         "label:pv:unpainted": 1000,
         "label:in:trailing-gap": 100,
         "label:in:leading-gap": 100,
+        "cli:gaps-ok": 150,
+        "cli:tag:3-haplotypes": 40,
+        "cli:all_haplotigs-file-written": 60,
         "label:in:via-tpf-text": 500,
         "label:in:via-agp-text": 500,
     }
